@@ -6,6 +6,7 @@ package zzverif
 import (
 	"fmt"
 	"runtime"
+	"time"
 )
 
 // Vector is the replay vector (filled by package zzverifrun natively).
@@ -178,8 +179,8 @@ func AllocGuard(limit int, f func()) {
 	}
 }
 
-// ClockNs is the engine's virtual clock (0 natively, where wall-clock time is not compared).
-func ClockNs() int64 { return 0 }
+// ClockNs is the engine's virtual clock (the wall clock natively).
+func ClockNs() int64 { return time.Now().UnixNano() }
 
 // Panics runs f and reports whether it panicked (ordinary Go; interpreted by the engine as is).
 func Panics(f func()) (p bool) {
